@@ -83,7 +83,7 @@ Definition ok_block (n : nat) : Prop :=
 Definition ok_for (n : nat) : Prop :=
   forall l tg ext L body vs k li out X s s' d tr o s1 d1,
     subset (minus (lin body li) tg) li = true -> subset out li = true -> chk_block body li X = true -> disjoint L li = true ->
-    match ext with None => true | Some x => mem x li end = true ->
+    subset ext li = true ->
     (negb (raises_block body) || disjoint L X) = true ->
     agree li s s' ->
     run_for F truthy false n l tg ext L body vs k s d = Some (tr, o, s1, d1) ->
@@ -98,7 +98,7 @@ Lemma no_raise : forall fn n,
 Proof.
   intros fn. induction n as [|n [IHs [IHb IHf]]]; [repeat split; intros; discriminate|].
   split; [|split].
-  - intros st s d tr o s1 d1 H R. destruct st as [l us ds | l us L1 b1 L2 b2 | l us L body | l us tg ext L body | l us | body hs orelse final];
+  - intros st s d tr o s1 d1 H R. destruct st as [l us ds | l us L1 b1 L2 b2 | l us L body | l us tg ext L body | l us | l us ds body | body hs orelse final];
       simpl in H, R.
     + destruct (reads s us); [|discriminate]. injection H as _ <- _ _. reflexivity.
     + apply orb_false_iff in R. destruct R as [R1 R2]. destruct (reads s us); [|discriminate].
@@ -115,6 +115,9 @@ Proof.
       destruct (run_for F truthy fn n l tg ext L body l0 0 s d) as [[[[t0 o0] s0] d0]|] eqn:E; [|discriminate].
       injection H as _ <- _ _. eapply IHf; [exact E | exact R].
     + discriminate.
+    + destruct (reads s us) as [vs0|]; [|discriminate].
+      destruct (run_block F truthy fn n body (write F s l vs0 0 ds) d) as [[[[t0 o0] s0] d0]|] eqn:E; [|discriminate].
+      injection H as _ <- _ _. eapply IHb; [exact E | exact R].
     + apply orb_false_iff in R. destruct R as [R R4]. apply orb_false_iff in R. destruct R as [R R3].
       apply orb_false_iff in R. destruct R as [R1 R2].
       destruct (run_block F truthy fn n body s d) as [[[[t1 o1] s1'] d1']|] eqn:E1; [|discriminate].
@@ -175,7 +178,7 @@ Proof.
   - intros b O X s s' d tr o s1 d1 _ _ H; discriminate.
   - intros l tg ext L body vs k li out X s s' d tr o s1 d1 _ _ _ _ _ _ _ H; discriminate.
   - intros st li out X s s' d tr o s1 d1 C A H.
-    destruct st as [l us ds | l us L1 b1 L2 b2 | l us L body | l us tg ext L body | l us | body hs orelse final]; simpl in C, H |- *;
+    destruct st as [l us ds | l us L1 b1 L2 b2 | l us L body | l us tg ext L body | l us | l us ds body | body hs orelse final]; simpl in C, H |- *;
       repeat rewrite enter_false in H; repeat rewrite leave_false in H.
     + (* atom *)
       apply andb_true_iff in C. destruct C as [Cu Co].
@@ -233,6 +236,13 @@ Proof.
       apply andb_true_iff in C. destruct C as [Cu Cx].
       rewrite <- (reads_agree li s s' us A Cu). destruct (reads s us) as [vs|]; [|discriminate].
       injection H as <- <- <- <-. eexists; split; [reflexivity|]. simpl. eapply agree_mono; eassumption.
+    + (* with *)
+      apply andb_true_iff in C. destruct C as [C Cb]. apply andb_true_iff in C. destruct C as [Cu Cl].
+      rewrite <- (reads_agree li s s' us A Cu). destruct (reads s us) as [vs|]; [|discriminate].
+      destruct (run_block F truthy false n body (write F s l vs 0 ds) d) as [[[[tr0 o0] s0] d0]|] eqn:E; [|discriminate]. injection H as <- <- <- <-.
+      destruct (IHb body out X (write F s l vs 0 ds) (write F s' l vs 0 ds) d tr0 o0 s0 d0 Cb) as [s0' [R P0]]; [| exact E |].
+      { apply write_agree. intros y Hy Hd. apply A. eapply subset_spec; [exact Cl|]. rewrite mem_minus, Hy, Hd. reflexivity. }
+      rewrite R. eexists; split; [reflexivity | exact P0].
     + (* try *)
       repeat (apply andb_true_iff in C; destruct C as [C ?]).
       rename H0 into Cbody, H1 into Corelse, H2 into Chs, H3 into Cfinal.
@@ -295,7 +305,8 @@ Proof.
   - (* the iterations of a for loop *)
     intros l tg ext L body vs k li out X s s' d tr o s1 d1 Sb So Cb DL Xe RX A H. simpl in H |- *.
     assert (EX : ext_stop truthy ext s' = ext_stop truthy ext s).
-    { destruct ext as [x|]; [|reflexivity]. simpl. rewrite (A x Xe). reflexivity. }
+    { clear -A Xe. induction ext as [|x r IH]; simpl; [reflexivity|]. simpl in Xe. apply andb_true_iff in Xe. destruct Xe as [Xx Xr].
+      rewrite (A x Xx), (IH Xr). reflexivity. }
     rewrite EX. destruct (ext_stop truthy ext s) as [[|]|]; [| |discriminate].
     { injection H as <- <- <- <-. eexists; split; [reflexivity|]. simpl. eapply agree_mono; eassumption. }
     destruct (dhead d).
